@@ -272,7 +272,7 @@ pub fn eval(case: &Case) -> Out {
 }
 
 pub fn run(ctx: &Ctx) -> i32 {
-    let cases = ctx.tier.pick(30_000, 1_200_000);
+    let cases = ctx.tier.pick(120_000, 4_000_000);
     let agg = run_prop(ctx, "case-c10", 16, cases, strategy, |case: &Case| {
         let out = eval(case);
         let mut classes = Vec::new();
